@@ -395,9 +395,26 @@ func (c *Ctx) c18DefinedNames(n int) {
 					return
 				}
 				if err == nil && o.Op == "del" {
-					// exactly that item went
-					if len(after) != len(before)-1 {
-						c.Fail("oracle", "C18_delete_exact", desc, fmt.Sprintf("deleting %s/%s changed the list from %d to %d items", o.Name, o.Scope, len(before), len(after)), "")
+					// exactly that item went: the one with the requested name (any letter case) in the requested scope
+					keep := map[string]int{}
+					for _, d := range after {
+						keep[strings.ToLower(d.Name)+"|"+d.Scope+"|"+d.RefersTo]++
+					}
+					var gone []excelize.DefinedName
+					for _, d := range before {
+						k := strings.ToLower(d.Name) + "|" + d.Scope + "|" + d.RefersTo
+						if keep[k] > 0 {
+							keep[k]--
+						} else {
+							gone = append(gone, d)
+						}
+					}
+					wantScope := o.Scope
+					if wantScope == "" {
+						wantScope = "Workbook"
+					}
+					if len(gone) != 1 || !strings.EqualFold(gone[0].Name, o.Name) || gone[0].Scope != wantScope || len(after) != len(before)-1 {
+						c.Fail("oracle", "C18_delete_exact", desc, fmt.Sprintf("DeleteDefinedName(%s, scope %q) was accepted and removed %+v from %+v", o.Name, o.Scope, gone, before), "")
 						return
 					}
 				}
